@@ -132,6 +132,18 @@ theorem C06_shared_writes_in_window (c : Cfg) (L : Nat) (hwf : WF c L) (eng : Na
     (s'.mstate ≠ s.mstate ∨ s'.cmap ≠ s.cmap ∨ s'.current ≠ s.current) → s.owner L = t + 1 :=
   C06P.shared_writes c L hwf eng progs hp ms σ t
 
+/-- the lock of a machine exists before any thread runs — also for a machine that was restored from
+pickle / deepcopy (`PicklableLock.__setstate__` re-runs `__init__`): in the model a lock is a cell
+`owner l` of the initial state, free and the same for every thread; acquiring it never creates or
+replaces a cell — a thread acquires lock `l` only when THE cell `l` is free, and no other cell
+changes.  (An implementation that allocates the lock lazily on first use can hand two first users
+two different locks; the harness makes `Lock()` a yield point to expose that.) -/
+theorem C06_locks_allocated_initially (c : Cfg) (progs : Nat → List Op) (ms : Nat) (l : Nat) :
+    ((init c progs ms).owner l = 0 ∧ (init c progs ms).current = 0) ∧
+    ∀ (s s' : LState) (t : Nat), enterCtx s t (.lock l) = some s' →
+      s.owner l = 0 ∧ s'.owner l = t + 1 ∧ ∀ l', l' ≠ l → s'.owner l' = s.owner l' :=
+  ⟨C06P.locks_allocated c progs ms l, fun _ _ _ h => C06P.enter_lock_same_cell h⟩
+
 /-! non-vacuity -/
 
 /-- a snapshot in the middle of an event, followed by a re-entrant call: nothing is entered again -/
